@@ -81,11 +81,13 @@ func (vt *Model) hts() {
 // Reverse Index ESC-M
 func (vt *Model) ri() {
 	vt.lastCol = false
-	if vt.cursor.row < 0 {
-		return
-	}
 	if vt.cursor.row == vt.margin.top {
 		vt.scrollDown(1)
+		return
+	}
+	if vt.cursor.row <= 0 {
+		// Above the scrolling region, on the first line: there is
+		// nowhere to go
 		return
 	}
 	vt.cursor.row -= 1
